@@ -23,11 +23,11 @@ RULE = ("narrow schema = a int64, s text (nullable), c categorical(str), p int64
         "text} x {simple, hive [p]} (thorough: also hive unpartitioned); "
         "operation alphabet (full) = 6 schema-compatible frames (3 rows, 1 row, 0 rows, with nulls, categorical "
         "with new labels, categorical with a subset of labels) x row_group_offsets {None, 1} x compression {None, SNAPPY} "
-        "+ uncompressed specials {categorical with 128 labels; and, only as the last operation of a history: columns in "
+        "+ uncompressed specials {categorical with 128 labels; categorical with 70 labels that change from batch to batch; categorical without any label (all values missing); and, only as the last operation of a history: columns in "
         "reverse order, 3 rows with offsets [0,1], 3 rows with offsets [0,3] (empty last chunk), 0 rows with offsets [0]}; "
-        "quick: 29 operations at level 1, the 12 uncompressed base operations + the 128-label frame at level 2; thorough: "
-        "29 at levels 1-2, 24 + the 128-label frame at level 3; "
-        "small alphabet = 7 frames (6 + 128 labels) x row_group_offsets {None, 1} uncompressed at level 1, x {None} at "
+        "quick: 31 operations at level 1, the 12 uncompressed base operations + the three categorical specials at level 2; thorough: "
+        "31 at levels 1-2, 24 + the three categorical specials at level 3; "
+        "small alphabet = 9 frames (6 + the three categorical specials) x row_group_offsets {None, 1} uncompressed at level 1, x {None} at "
         "level 2 (quick; depth 1 only for the default-range and unnamed index kinds); thorough: the full 29 at level 1, "
         "14 at level 2, 7 at level 3; "
         "BFS to depth 2 (quick) / 3 (thorough), states hashed by the bytes of every file of the dataset; every "
@@ -49,7 +49,7 @@ ASSUMPTIONS = ["within one append to a partitioned dataset row order is not comp
                "the model rows are the canonical cells of the frames handed to fastparquet.write (pandas trusted)"]
 
 FRAMES = ["three", "one", "zero", "nulls", "cat_new", "cat_subset"]
-SMALL_FRAMES = FRAMES + ["cat_wide", "cat_mid"]
+SMALL_FRAMES = FRAMES + ["cat_wide", "cat_mid", "cat_none"]
 COLS = ("a", "s", "c", "p", "q", "f", "t", "b", "i")        # wide schema
 NARROW = COLS[:4]
 WIDE = ["L%03d" % i for i in range(126)] + ["u", "v"]          # 128 labels: one more than int8 codes can address
@@ -110,6 +110,8 @@ def special_operations():
             # 70 labels that differ from batch to batch but have the same count and the same encoded size: two such
             # batches overflow int8 codes only together
             {"frame": "cat_mid", "rgo": None, "comp": None},
+            # a categorical batch without any label (every value missing): its dictionary page is empty
+            {"frame": "cat_none", "rgo": None, "comp": None},
             {"frame": "permuted", "rgo": None, "comp": None},
             {"frame": "three", "rgo": [0, 1], "comp": None},
             {"frame": "three", "rgo": [0, 3], "comp": None},       # the last chunk is empty
@@ -126,9 +128,9 @@ def alphabet(init, level, tier):
     if level == 1 or (tier == "thorough" and level == 2):
         return operations() + special_operations()
     if tier == "thorough":
-        return operations() + special_operations()[:2]
+        return operations() + special_operations()[:3]
     # deeper levels of the quick tier: the uncompressed base alphabet and the wide categorical
-    return [o for o in operations() if not o["comp"]] + special_operations()[:2]
+    return [o for o in operations() if not o["comp"]] + special_operations()[:3]
 
 
 def explore(run, tier):
@@ -172,7 +174,7 @@ def crash_sig(point, res):
     s = dict(point["init"])
     s["symptom"] = res["outcome"]
     s["frames"] = ",".join(o["frame"] for o in point["hist"])
-    s["cat_sets_differ"] = any(o["frame"] in ("cat_new", "cat_subset", "cat_wide", "cat_mid") for o in point["hist"])
+    s["cat_sets_differ"] = any(o["frame"] in ("cat_new", "cat_subset", "cat_wide", "cat_mid", "cat_none") for o in point["hist"])
     return s
 
 
@@ -193,6 +195,7 @@ def _rows(name):
             "cat_subset": [(9, "k", "v", 2, "y", 9.5, 16, True, 9), (10, "j", "v", 2, "y", 10.5, 17, True, 10)],
             "cat_wide": [(11, "g", "L000", 1, "x", 11.5, 18, False, 11), (12, "h", "u", 2, "y", 12.5, 19, True, 12)],
             "cat_mid": [(15, "d", "MID0", 1, "x", 15.5, 21, True, 15), (16, "c", "v", 2, "y", 16.5, 22, False, 16)],
+            "cat_none": [(17, "b", None, 1, "x", 17.5, 23, True, 17), (18, "a", None, 2, "y", 18.5, 24, False, 18)],
             "permuted": [(13, "e", "v", 2, "x", 13.5, 20, True, 13), (14, None, "u", 1, "y", None, None, False, None)],
             "initial": [(0, "i0", "u", 1, "x", 0.5, 0, True, 0), (-1, "i1", "v", 2, "y", None, 1, False, None),
                         (-2, None, "u", 1, "y", -2.5, None, True, -2), (-3, "i3", "v", 1, "x", 1e300, 3, False, 2 ** 40)],
@@ -205,7 +208,7 @@ def frame(name, widx, base_id, wide=False):
     import pandas as pd
     from mc import oracles as O
     rows = _rows(name)
-    cats = {"cat_new": ["NEW", "u"], "cat_subset": ["v"], "cat_wide": WIDE}.get(name, ["u", "v"])
+    cats = {"cat_new": ["NEW", "u"], "cat_subset": ["v"], "cat_wide": WIDE, "cat_none": []}.get(name, ["u", "v"])
     if name == "cat_mid":
         cats = ["M%04d_%02d" % (base_id % 10000, i) for i in range(68)] + ["u", "v"]
         rows = [tuple(cats[0] if x == "MID0" else x for x in r) for r in rows]
@@ -400,7 +403,7 @@ def run(point):
     if hist and isinstance(hist[-1]["rgo"], list):
         sig_step["rgo"] = "list"
     names = [o["frame"] for o in hist]
-    has_cat_change = any(o["frame"] in ("cat_new", "cat_subset", "cat_wide", "cat_mid") for o in hist)
+    has_cat_change = any(o["frame"] in ("cat_new", "cat_subset", "cat_wide", "cat_mid", "cat_none") for o in hist)
     try:
         got, idx, pf, df = read_rows(path, widx, wide)
     except Exception as e:
